@@ -287,7 +287,7 @@ fn run_history_s<S: HB>(cfg: &HistCfg, mut src: Source, out: &mut RunOut, opts: 
         let mut cur0 = 0usize;
         let op = match mode {
             0 | 1 => None,
-            m => { let n = pre.ents.len(); let calls: Vec<bool> = (0..(n * (k as usize % 3)) / 2 + (k as usize % 2)).map(|i| (i + oplog.len()) % 3 == 0).collect(); Some(Op::Into { kind: 2 + m as u8, calls, forget: false, fin: ((k + oplog.len() as u64) % 11).min(7) as u8 % 8 }) }
+            m => { let n = pre.ents.len(); let calls: Vec<bool> = (0..(n * (k as usize % 3)) / 2 + (k as usize % 2)).map(|i| (i + oplog.len()) % 3 == 0).collect(); Some(Op::Into { kind: 2 + m as u8, calls, forget: false, fin: [0u8, 0, 1, 2, 3, 4, 5, 6, 7, 8, 8][((k + oplog.len() as u64) % 11) as usize] }) }
         };
         match op {
             None => { window_begin(); drop(one.pop()); let drops = window_end(); oplog.push(Op::DropCache { idx: 0 });
